@@ -1,5 +1,6 @@
 import PydraModel.Argv.WordsLemmas
 import PydraModel.Argv.CleanupSurvive
+import PydraModel.Argv.LowerLemmas
 /-
 C23 — Field values reach the command intact.
 
@@ -150,6 +151,38 @@ def eqS : Argstr := ⟨"--s={s}".toList, false, [.lit "--s=".toList, .ref "s".to
 theorem C23_witness_strip :
     formatScalar noEnv ⟨"s".toList, false, false, some eqS, none, [' ']⟩ eqS (.str ['a', Char.ofNat 0xa0])
       = .ok ["--s=a".toList] := by decide
+
+/-! ### brackets and braces in values (D43, D44) -/
+
+/-- D43: in a templated argstr the bracket clean-up of `argstr_formatting` eats the comma of the VALUE -/
+theorem C23_witness_bracket :
+    formatScalar noEnv ⟨"s".toList, false, false, some eqS, none, [' ']⟩ eqS (.str "a[,b".toList) = .ok ["--s=a[b".toList]
+    ∧ formatScalar noEnv ⟨"s".toList, false, false, some eqS, none, [' ']⟩ eqS (.str "x,]y".toList) = .ok ["--s=x]y".toList] := by
+  refine ⟨by decide, by decide⟩
+
+def fxEq : FieldX := ⟨⟨"s".toList, false, false, some eqS, none, [' ']⟩, {}⟩
+def fxT : FieldX := ⟨⟨"t".toList, false, false, none, none, [' ']⟩, {}⟩
+def noF : FormatterFn := fun _ _ => []
+def strX (s : String) : ValueX := .v (.one (.str s.toList))
+
+/-- D44: the value is substituted into the argstr text before `str.format` runs (extended model `runDefX`):
+    a lone brace makes the command construction fail … -/
+theorem C23_witness_brace_error :
+    runDefX noF noEnv [] ["exe".toList] [fxEq] [strX "a{b"] [] = .error .reformat
+    ∧ runDefX noF noEnv [] ["exe".toList] [fxEq] [strX "x}y"] [] = .error .reformat
+    ∧ runDefX noF noEnv [] ["exe".toList] [fxEq] [strX "{}"] [] = .error .reformat := by
+  refine ⟨by decide, by decide, by decide⟩
+
+/-- … and `{t}` inside the value is replaced by the value of the field `t` (injection); an unknown name vanishes -/
+theorem C23_witness_brace_injection :
+    runDefX noF noEnv [] ["exe".toList] [fxEq, fxT] [strX "p{t}q", strX "TT"] [] = .ok ["exe".toList, "--s=pTTq".toList]
+    ∧ runDefX noF noEnv [] ["exe".toList] [fxEq] [strX "{zz}"] [] = .ok ["exe".toList, "--s=".toList] := by
+  refine ⟨by decide, by decide⟩
+
+/-- FULL: a value text without braces is never re-interpreted (the argstr stays as parsed), so the theorems
+    above about `formatScalar` speak about what the extended model runs -/
+theorem C23_lowering_nobrace (a : Argstr) (name value : Str) (h : hasBrace value = false) :
+    lowerArgstr a name value = .ok a := lowerArgstr_nobrace a name value h
 
 /-! ### non-vacuity -/
 
